@@ -128,6 +128,11 @@ fn real_main() {
                     let live: Vec<usize> = (0..MAXH).filter(|&i| w.slots[i].is_some()).collect();
                     w.drop_all(&live);
                     for a in acts {
+                        // operations whose model is reconciled with the help of the allocator ledger (what a misbehaving user
+                        // type left behind): without the ledger - under the interpreter - their model cannot be kept
+                        if matches!(a.k, K::MExtendPanic | K::MPutUnder | K::MExtendLie) {
+                            continue;
+                        }
                         idx += 1;
                         let mut h2 = hist.clone();
                         h2.push(a);
